@@ -185,6 +185,23 @@ class Repo:
             out.update(ci.slots)
         return out
 
+    def instance_attrs(self, clsname, prefer_module=None):
+        """names an instance can carry when only the class's own code wrote to it:
+        __slots__ along the MRO plus every `self.X = ...` target in its methods"""
+        out = set()
+        for ci in self.mro(clsname, prefer_module):
+            if ci.slots:
+                out.update(ci.slots)
+            for m in ci.methods.values():
+                if not m.args.args:
+                    continue
+                selfname = m.args.args[0].arg
+                for sub in ast.walk(m):
+                    if isinstance(sub, ast.Attribute) and isinstance(sub.ctx, ast.Store) \
+                            and isinstance(sub.value, ast.Name) and sub.value.id == selfname:
+                        out.add(sub.attr)
+        return out
+
     def function(self, relfile, qualname):
         """-> (FunctionDef, ModuleInfo, ClassInfo|None).  qualname 'f', 'C.m' or 'C.m.inner'"""
         m = self.module_of_file(relfile)
